@@ -151,6 +151,10 @@ func (w *Proxy) checkC01() {
 		}
 		codec := peers.CodecFor(r.Proto)
 		want := codec.MaskID(r.Frame)
+		if fm := r.Extra["mutate"]; fm != "" {
+			w.checkMutated(r, fm)
+			continue
+		}
 		for ai, up := range r.Upstream {
 			got := codec.MaskID(up.Frame)
 			if !bytes.Equal(want, got) {
@@ -697,4 +701,107 @@ func (w *Proxy) filterOutcome(r *peers.ReqRec) (want, got []string, end string, 
 		}
 	}
 	return
+}
+
+// checkMutated: C01 for a request (and response) a stream filter modified: the frame MOSN re-encoded
+// must decode (the peer codec checks that its length fields are consistent) to exactly the modified
+// content: one header added, one removed, possibly a new body; everything else as sent.
+func (w *Proxy) checkMutated(r *peers.ReqRec, fm string) {
+	s := w.S
+	codec := peers.CodecFor(r.Proto)
+	sent, err := codec.Parse(r.Frame)
+	if err != nil {
+		return
+	}
+	wantH := map[string]string{}
+	for _, kv := range sent.Headers {
+		if kv.K != "k1" {
+			wantH[kv.K] = kv.V
+		}
+	}
+	wantH["x-mut"] = "by-f0"
+	wantBody := sent.Body
+	if strings.Contains(fm, "body") {
+		wantBody = []byte("mutated-body-" + r.Token)
+	}
+	for ai, up := range r.Upstream {
+		w.Stats["c01_mutated_frames_checked"]++
+		got, err := codec.Parse(up.Frame)
+		if err != nil {
+			s.Violate("C01", "mutated_request_inconsistent", "req#%d attempt %d: the frame re-encoded after a filter modified it does not decode: %v", r.Idx, ai, err)
+			continue
+		}
+		if got.HdrErr != nil {
+			s.Violate("C01", "mutated_request_inconsistent", "req#%d attempt %d: header block of the re-encoded frame does not decode: %v", r.Idx, ai, got.HdrErr)
+			continue
+		}
+		gotH := map[string]string{}
+		for _, kv := range got.Headers {
+			if _, dup := gotH[kv.K]; dup {
+				s.Violate("C01", "mutated_request_changed", "req#%d attempt %d: header %q appears twice in the re-encoded frame", r.Idx, ai, kv.K)
+			}
+			gotH[kv.K] = kv.V
+		}
+		// (a MOSN-made reply is built on the request's own header object: the send filter's header can then
+		// show up in a later attempt of the same request — the filter's doing, not the codec's)
+		if d := diffMaps(wantH, gotH, func(k string) bool { return k == "x-rmut" }); d != "" {
+			s.Violate("C01", "mutated_request_changed", "req#%d attempt %d (filter: %s): %s", r.Idx, ai, fm, d)
+		}
+		if !bytes.Equal(got.Body, wantBody) {
+			s.Violate("C01", "mutated_request_changed", "req#%d attempt %d (filter: %s): body is %dB %q..., the modified content is %dB", r.Idx, ai, fm, len(got.Body), head(got.Body, 24), len(wantBody))
+		}
+		if got.Class != sent.Class || got.Timeout != sent.Timeout || got.Oneway != sent.Oneway {
+			s.Violate("C01", "mutated_request_changed", "req#%d attempt %d: class/timeout/type changed (%q %d %v -> %q %d %v)", r.Idx, ai, sent.Class, sent.Timeout, sent.Oneway, got.Class, got.Timeout, got.Oneway)
+		}
+	}
+	if !strings.Contains(fm, "resp") || tainted(r) {
+		return
+	}
+	for _, rep := range r.Replies {
+		if rep.Tok != r.Token || rep.Parsed == nil {
+			continue
+		}
+		gotR := map[string]string{}
+		for _, kv := range rep.Parsed.Headers {
+			gotR[kv.K] = kv.V
+		}
+		if rep.Parsed.HdrErr != nil {
+			s.Violate("C01", "mutated_response_inconsistent", "req#%d: header block of the re-encoded response does not decode: %v", r.Idx, rep.Parsed.HdrErr)
+			continue
+		}
+		// the reply must be one of the upstream's replies for this request plus the filter's header
+		first, matched, n := "", false, 0
+		for _, up := range r.Upstream {
+			for _, fr := range up.Sent {
+				src, err := codec.Parse(fr)
+				if err != nil {
+					continue
+				}
+				n++
+				wantR := map[string]string{"x-rmut": "by-f0"}
+				for _, kv := range src.Headers {
+					wantR[kv.K] = kv.V
+				}
+				d := diffMaps(wantR, gotR, func(string) bool { return false })
+				if d == "" && !bytes.Equal(rep.Parsed.Body, src.Body) {
+					d = fmt.Sprintf("response body changed (%dB -> %dB)", len(src.Body), len(rep.Parsed.Body))
+				}
+				if d == "" {
+					matched = true
+				} else if first == "" {
+					first = d
+				}
+			}
+		}
+		if n > 0 && !matched {
+			s.Violate("C01", "mutated_response_changed", "req#%d: the delivered response is none of the upstream's %d replies plus the filter's header: %s", r.Idx, n, first)
+		}
+	}
+}
+
+func head(b []byte, n int) []byte {
+	if len(b) > n {
+		return b[:n]
+	}
+	return b
 }
